@@ -17,6 +17,11 @@ CHECKS = {
    technique="proptest-generated configurations and clock-step/write histories under an injected clock; oracle = (current file, next boundary) reference model with an own calendar conversion, directory contents compared with the model after every write",
    text="Rotation minutely/hourly/daily/never x optional prefix x optional suffix x optional file limit 1-4 x start instant 1971..9998 (biased to the last minute of month and year ends, Feb 28/29, Y2K) x up to 14 (thorough 30) steps: a clock step {same instant, small and large forward steps, exactly to the next boundary -1/0/+1 s, 1-5 periods ahead, 1-7200 s backwards} then a write of a unique payload through Write, or through MakeWriter from 2-6 threads released at one instant. After every write the directory's files and their bytes must equal the model: every payload whole, once, in order, in the file named for its period (concurrent writes at a rotation instant: old or new file), exactly one new file per boundary crossed, none for standing still or going back, and with a limit at most that many log files with the oldest removed first.",
    note="The clock is the cfg-guarded override tracing_appender::rolling::verif_clock. Pruning order is judged by the birth times the code itself reads; equal birth times are tolerated. Threads are real threads released by a barrier (no schedule control): only schedule-independent outcomes are asserted."),
+ "C18": dict(
+   category="exploration", design="DESIGN.md §4 C18",
+   technique="proptest-generated cases, one fresh process each: (a) log records x bridge configuration x collector filters with a model of who must accept; (b) macro / span-lifecycle histories with the first collector installation at a generated position against a recording log::Log; (c) complete enumeration of the level conversions",
+   text="(a) LogTracer built with a generated ignore list and log max level; generated records (5 levels; targets from an alphabet with ignored prefixes, look-alikes, \"log\" and arbitrary text; arbitrary messages; file/line/module present or absent) through four routes (installed logger, log! macro, a local LogTracer, format_trace) while generated collectors (level filter x hint x target filter; scoped, global or none) are current: exactly one event at the current collector iff it accepts the record's own level and target and the route's documented gates pass, none otherwise; the event carries the message and normalized_metadata() returns target, level, file, line and module path. (b) tracing built with the log feature and a recording logger: 11 event and 6 span macro call sites with generated values, span new/enter/exit/record/drop, creating a Dispatch without installing it, then the first installation (scoped, scoped-and-dropped, global, on another thread, with_default) at a generated position: before it every step gives exactly one log record with the documented level and target whose text contains the message and every name=value, afterwards none. (c) Level / LevelFilter / Metadata conversions are mutually inverse and order preserving.",
+   note="The logger and the has-been-set flag are one-shot process state, hence a child process per case. With log's max level below TRACE, span enter/exit/close records (TRACE records that the code gates by the span's own level) are tolerated either way. Log text is judged by containment, not exact format."),
  "C13": dict(
    category="exploration", design="DESIGN.md §4 C13",
    technique="proptest-generated (formatter, options, writer expression, multi-thread workload) cases; oracle = denotation of the writer expression over recording sinks + per-record predicates on the bytes of each individual write call",
